@@ -610,4 +610,125 @@ theorem entriesGraphs_keys (canon : String → Option String) (p : Nat) (ds : Da
         simp at h; subst h
         exact forall₂_append' (goEntries_keys canon p ds rel g qs qs 0 [] es1 h1) (ih es2 h2)
 
+/-! ### numbering of node siblings: positions 0, 1, 2, … in order of first appearance -/
+
+/-- a child map numbers its (pairwise different) children 0 … n-1 in the order they were added -/
+def ChildMapOK (cm : ChildMap) : Prop :=
+  cm.map (·.2) = List.range cm.length ∧ (cm.map (·.1)).Nodup ∧ cm ≠ []
+
+def ChildrenOK (ch : List (QKey × ChildMap)) : Prop := ∀ k cm, (k, cm) ∈ ch → ChildMapOK cm
+
+theorem lookup_none_not_mem (m : ChildMap) (c : Ref) (h : (m.lookup c).isSome = false) : c ∉ m.map (·.1) := by
+  induction m with
+  | nil => simp
+  | cons x rest ih =>
+    obtain ⟨a, n⟩ := x
+    simp only [List.lookup] at h
+    split at h
+    · simp at h
+    · rename_i hne
+      simp only [List.map_cons, List.mem_cons, not_or]
+      refine ⟨?_, ih h⟩
+      intro e; subst e; simp at hne
+
+theorem childMapOK_snoc (m : ChildMap) (c : Ref) (hm : ChildMapOK m) (hc : (m.lookup c).isSome = false) :
+    ChildMapOK (m ++ [(c, m.length)]) := by
+  obtain ⟨h1, h2, _⟩ := hm
+  refine ⟨?_, ?_, by simp⟩
+  · simp [List.range_succ, h1]
+  · rw [List.map_append, List.nodup_append]
+    refine ⟨h2, by simp, ?_⟩
+    intro a ha b hb
+    simp at hb
+    subst hb
+    intro e; subst e
+    exact lookup_none_not_mem m a hc ha
+
+theorem addChild_ok : ∀ (ch : List (QKey × ChildMap)) (k : QKey) (c : Ref), ChildrenOK ch → ChildrenOK (addChild ch k c) := by
+  intro ch
+  induction ch with
+  | nil =>
+    intro k c _ k' cm hm
+    simp [addChild] at hm
+    obtain ⟨_, e⟩ := hm; subst e
+    exact ⟨by simp, by simp, by simp⟩
+  | cons x rest ih =>
+    intro k c hok
+    obtain ⟨k0, m0⟩ := x
+    unfold addChild
+    split
+    · split
+      · exact hok
+      · rename_i hnone
+        intro k' cm hm
+        simp only [List.mem_cons, Prod.mk.injEq] at hm
+        rcases hm with ⟨_, e⟩ | hm
+        · subst e
+          have hn : (m0.lookup c).isSome = false := by
+            cases hq : (m0.lookup c).isSome with
+            | true => exact absurd hq hnone
+            | false => rfl
+          exact childMapOK_snoc m0 c (hok k0 m0 (by simp)) hn
+        · exact hok k' cm (List.mem_cons_of_mem _ hm)
+    · intro k' cm hm
+      simp only [List.mem_cons, Prod.mk.injEq] at hm
+      rcases hm with ⟨e1, e2⟩ | hm
+      · rw [e2]; exact hok k0 m0 (by simp)
+      · exact ih k c (fun a b hab => hok a b (List.mem_cons_of_mem _ hab)) k' cm hm
+
+theorem relGraph_children_ok (ds : Dataset) (g : String) :
+    ∀ (qs : List Quad) (i : Nat) (rel rel' : Rel), ChildrenOK rel.children → relGraph ds g qs i rel = .ok rel' →
+      ChildrenOK rel'.children := by
+  intro qs
+  induction qs with
+  | nil => intro i rel rel' hok h; simp [relGraph] at h; subst h; exact hok
+  | cons q rest ih =>
+    intro i rel rel' hok h
+    unfold relGraph at h
+    split at h
+    · simp at h
+    · exact ih _ _ _ hok h
+    · split at h
+      · simp at h
+      · split at h
+        · simp at h
+        · exact ih _ _ _ (addChild_ok _ _ _ hok) h
+
+theorem relGraphs_children_ok (ds : Dataset) :
+    ∀ (gs : Dataset) (rel rel' : Rel), ChildrenOK rel.children → relGraphs ds gs rel = .ok rel' → ChildrenOK rel'.children := by
+  intro gs
+  induction gs with
+  | nil => intro rel rel' hok h; simp [relGraphs] at h; subst h; exact hok
+  | cons gq rest ih =>
+    intro rel rel' hok h
+    obtain ⟨g, qs⟩ := gq
+    unfold relGraphs at h
+    split at h
+    · simp at h
+    · rename_i rel1 h1
+      exact ih _ _ (relGraph_children_ok ds g qs 0 rel rel1 hok h1) h
+
+/-- **node siblings are numbered 0 … m-1**: in every child map built by `newRelationship` the children are pairwise
+    different and carry the positions 0, 1, …, m-1 in order of first appearance -/
+theorem newRelationship_children_ok (ds : Dataset) (rel : Rel) (h : newRelationship ds = .ok rel) : ChildrenOK rel.children := by
+  unfold newRelationship at h
+  exact relGraphs_children_ok ds _ _ rel (by intro k cm hm; simp at hm) h
+
+/-- a position found in a well-numbered child map is below the number of children, and two different children have
+    different positions -/
+theorem childMapOK_lookup_lt : ∀ (cm : ChildMap) (c : Ref) (n : Nat), cm.map (·.2) = List.range cm.length → cm.lookup c = some n → n < cm.length := by
+  intro cm c n hr hl
+  have hm : n ∈ cm.map (·.2) := by
+    clear hr
+    induction cm with
+    | nil => simp at hl
+    | cons x rest ih =>
+      obtain ⟨a, k⟩ := x
+      simp only [List.lookup] at hl
+      split at hl
+      · simp at hl; subst hl; simp
+      · exact List.mem_cons_of_mem _ (ih hl)
+  rw [hr] at hm
+  simpa using hm
+
 end Gsp.Rdf
